@@ -851,6 +851,8 @@ def run_execution(case: dict, *, max_invocations: int | None = None, hooks: dict
                 run.v("C07", "too_many_invocations", "driver", f"execution did not reach a terminal status within {bound} invocations")
                 break
             run.inv = inv
+            if case.get("event_mutation") and backend.first_page == -1:
+                backend.first_page = 0  # event mutations edit the EXECUTION operation of the invocation payload: keep it there
             event = backend.start_invocation()
             if case.get("event_mutation"):
                 event = _mutate_event(event, case["event_mutation"])
